@@ -1,4 +1,6 @@
-/-! scratch: pty world + pty_spawn.read_nonblocking under an adversarial schedule -/
+/-! The pty world (kernel buffer, slave side, child process with a script) and `pty_spawn.read_nonblocking`
+    under an adversarial schedule: before every reader system call the schedule says how many child actions
+    happen, and for `read` how many bytes the kernel hands over. -/
 namespace PtyW
 
 abbrev Byte := Nat
@@ -98,53 +100,67 @@ def drain (size : Nat) : Nat → List Byte → World → Sched → List Byte × 
       else (inc, w, sc)
     else (inc, w, sc)
 
-/-- `fixed = true` re-polls before the "very slow platform" EOF -/
-def readNonblocking (fixed : Bool) (size : Nat) (timed : Bool) (w : World) (sc : Sched) : Out × World × Sched :=
-  let (r, w, sc) := select0 w sc
-  if r then
-    match osRead size w sc with
+/-- `super().read_nonblocking(size)` after a positive poll: data, or EIO → EOF -/
+def readOnce (size : Nat) (w : World) (sc : Sched) : Out × World × Sched :=
+  match osRead size w sc with
+  | (.eio, w, sc) => (.eof, w, sc)
+  | (.data bs, w, sc) => (.data bs, w, sc)
+
+/-- poll once more and read, else report EOF (the two dead-child branches of the repaired code) -/
+def pollRead (size : Nat) (w : World) (sc : Sched) : Out × World × Sched :=
+  let r := select0 w sc
+  if r.1 then readOnce size r.2.1 r.2.2 else (.eof, r.2.1, r.2.2)
+
+/-- `pty_spawn.spawn.read_nonblocking` (repaired); `timed = false` is `timeout == 0` -/
+def readNonblocking (size : Nat) (timed : Bool) (w : World) (sc : Sched) : Out × World × Sched :=
+  let r := select0 w sc
+  if r.1 then
+    match osRead size r.2.1 r.2.2 with
     | (.eio, w, sc) => (.eof, w, sc)
     | (.data bs, w, sc) =>
-      let (inc, w, sc) := drain size size bs w sc
-      (.data inc, w, sc)
+      let d := drain size size bs w sc
+      (.data d.1, d.2.1, d.2.2)
   else
-    let (alive, w, sc) := isalive w sc
-    if !alive then
-      let (r, w, sc) := select0 w sc
-      if r then
-        match osRead size w sc with
-        | (.eio, w, sc) => (.eof, w, sc)
-        | (.data bs, w, sc) => (.data bs, w, sc)
-      else (.eof, w, sc)
+    let a := isalive r.2.1 r.2.2
+    if !a.1 then pollRead size a.2.1 a.2.2
     else
-      let (r, w, sc) := if timed then selectT w sc else (false, w, sc)
-      if r then
-        match osRead size w sc with
-        | (.eio, w, sc) => (.eof, w, sc)
-        | (.data bs, w, sc) => (.data bs, w, sc)
+      let t := if timed then selectT a.2.1 a.2.2 else (false, a.2.1, a.2.2)
+      if t.1 then readOnce size t.2.1 t.2.2
       else
-        let (alive, w, sc) := isalive w sc
-        if !alive then
-          if fixed then
-            let (r, w, sc) := select0 w sc
-            if r then
-              match osRead size w sc with
-              | (.eio, w, sc) => (.eof, w, sc)
-              | (.data bs, w, sc) => (.data bs, w, sc)
-            else (.eof, w, sc)
-          else (.eof, w, sc)
-        else (.timeout, w, sc)
+        let a2 := isalive t.2.1 t.2.2
+        if !a2.1 then pollRead size a2.2.1 a2.2.2
+        else (.timeout, a2.2.1, a2.2.2)
+
+/-- the code before the repair: after the timed wait a dead child means EOF at once -/
+def readNonblockingPre (size : Nat) (timed : Bool) (w : World) (sc : Sched) : Out × World × Sched :=
+  let r := select0 w sc
+  if r.1 then
+    match osRead size r.2.1 r.2.2 with
+    | (.eio, w, sc) => (.eof, w, sc)
+    | (.data bs, w, sc) =>
+      let d := drain size size bs w sc
+      (.data d.1, d.2.1, d.2.2)
+  else
+    let a := isalive r.2.1 r.2.2
+    if !a.1 then pollRead size a.2.1 a.2.2
+    else
+      let t := if timed then selectT a.2.1 a.2.2 else (false, a.2.1, a.2.2)
+      if t.1 then readOnce size t.2.1 t.2.2
+      else
+        let a2 := isalive t.2.1 t.2.2
+        if !a2.1 then (.eof, a2.2.1, a2.2.2)
+        else (.timeout, a2.2.1, a2.2.2)
 
 def w0 (script : List Act) : World := ⟨[], true, .running, script, []⟩
 
-/-- the confirmed defect as a kernel-checked witness: EOF is raised while a byte is unread -/
+/-- the defect that was repaired, as a kernel-checked witness: EOF raised while a byte is unread -/
 example :
-    let (o, w, _) := readNonblocking false 10 true (w0 [.write [7], .exit 0]) [⟨0,1⟩, ⟨0,1⟩, ⟨0,1⟩, ⟨2,1⟩]
-    o = .eof ∧ w.kbuf = [7] := by decide
+    let r := readNonblockingPre 10 true (w0 [.write [7], .exit 0]) [⟨0,1⟩, ⟨0,1⟩, ⟨0,1⟩, ⟨2,1⟩]
+    r.1 = .eof ∧ r.2.1.kbuf = [7] := by decide
 
 example :
-    let (o, w, _) := readNonblocking true 10 true (w0 [.write [7], .exit 0]) [⟨0,1⟩, ⟨0,1⟩, ⟨0,1⟩, ⟨2,1⟩]
-    o = .data [7] ∧ w.kbuf = [] := by decide
+    let r := readNonblocking 10 true (w0 [.write [7], .exit 0]) [⟨0,1⟩, ⟨0,1⟩, ⟨0,1⟩, ⟨2,1⟩]
+    r.1 = .data [7] ∧ r.2.1.kbuf = [] := by decide
 
 /-- ghost invariant: delivered ++ kbuf = written -/
 def Conserve (delivered : List Byte) (w : World) : Prop := delivered ++ w.kbuf = w.written
